@@ -120,6 +120,9 @@ def replay_case(arg):
             elif name == "setmask":
                 site = "setmask/empty-mask" if op["empty"] else "setmask"
                 a[a > op["t"]] = op["v"]
+            elif name == "setmaskcols":
+                site = "setmaskcols/empty-mask" if op["empty"] else "setmaskcols"
+                a[a[:, :op["cb"]] > op["t"]] = op["v"]
             elif name == "setrows":
                 vals = [np.array(v) for v in op["vals"]]
                 site = "setrows/RaggedArray-value" if op["asRA"] else "setrows/list-value"
